@@ -448,8 +448,9 @@ def c13(tier):
                     "the same five files created in different orders / on different file systems give %d different outputs: %s" % (
                         len({r[3] for r in mfres}), [(r[0], r[1], r[3][:8]) for r in mfres]), {"files": MF, "orders": orders})
     nrep += len(mfres)
+    sm = stable_map(rep, sc, quick)
     rep.coverage = {
-        "multi_file_generations": len(mfres), "file_systems": roots,
+        "multi_file_generations": len(mfres), "file_systems": roots, "stablemap": sm,
         "states": rm.distinct + rt.distinct, "transitions": rm.states + rt.states,
         "traces_validated_against_impl": len(hist) - len(rej),
         "evaluations": len(hist) + nrep, "distinct_nontrivial": len([h for h in hist if len(h["steps"]) >= 2]),
@@ -463,6 +464,58 @@ def c13(tier):
     rep.assumptions = ["TLC/SANY", "Go's map iteration order can only be re-sampled by repetition, not enumerated",
                        "Out(s) is taken from a fresh-directory generation by the same binary"]
     return rep.finish("model_checking")
+
+
+def stable_map(rep, sc, quick):
+    """the ordered map every construction iterates over: StableMap.tla model-checked; every operation sequence up to a depth
+    replayed on the real stablemap.Map / MultiMap and validated step by step (StableMapTrace.tla)"""
+    sd = spec_dir(sc, "spec-sm")
+    r0 = tlc(sc, "StableMap", cfg="StableMap.cfg", cwd=sd, timeout=900)
+    tlc_must(r0, "StableMap")
+    if r0.violation:
+        raise Infra("StableMap.tla violates its own property: " + r0.violation)
+    depth = 3 if quick else 5
+    keys, vals = [1, 2, 3], [7, 8]
+    ops = [{"op": "put", "k": k, "v": v} for k in keys for v in vals] + [{"op": "remove", "k": k, "v": 0} for k in keys] + [{"op": "clear", "k": 0, "v": 0}]
+    mops = [{"op": "add", "k": k, "v": v} for k in keys for v in vals] + [{"op": "remove", "k": k, "v": 0} for k in keys] + [{"op": "clear", "k": 0, "v": 0}]
+    seqs = [list(s) for s in itertools.product(ops, repeat=depth)] + [list(s) for s in itertools.product(mops, repeat=depth) if any(o["op"] == "add" for o in s)]
+    tool = build_tool(sc, "smapt")
+    p = subprocess.run([tool], input=json.dumps({"universe": keys + [9], "seqs": seqs}).encode(), stdout=subprocess.PIPE, stderr=subprocess.PIPE, timeout=600)
+    if p.returncode != 0:
+        rep.failure("c13.stablemap-crash", "the ordered map panicked under an operation sequence: " + p.stderr.decode()[-400:], {"ops": "all sequences of depth %d" % depth})
+        return {"sequences": len(seqs), "crashed": True}
+    traces = json.loads(p.stdout.decode())
+    # the property itself: what the map shows is a function of the operations applied (second process: other hash seeds)
+    p2 = subprocess.run([tool], input=json.dumps({"universe": keys + [9], "seqs": seqs}).encode(), stdout=subprocess.PIPE, stderr=subprocess.PIPE, timeout=600)
+    traces2 = json.loads(p2.stdout.decode()) if p2.returncode == 0 else None
+    ndiff = 0
+    if traces2 is None:
+        rep.failure("c13.stablemap-crash", "the ordered map panicked in a second run of the same operation sequences", {})
+    else:
+        for sq, a, b in zip(seqs, traces, traces2):
+            if a != b:
+                ndiff += 1
+                if ndiff <= 3:
+                    rep.failure("c13.ordered-map-iteration-not-deterministic",
+                                "stablemap shows different contents in two runs of %s: %s / %s" % (json.dumps(sq), json.dumps(a[-1]), json.dumps(b[-1])), {"ops": sq})
+    nrej = 0
+    CH = 40000
+    states = 0
+    for k0 in range(0, len(traces), CH):
+        json.dump(traces[k0:k0 + CH], open(os.path.join(sd, "smap_traces.json"), "w"))
+        json.dump(keys + [9], open(os.path.join(sd, "smap_universe.json"), "w"))
+        rt = tlc(sc, "StableMapTrace", cfg="StableMapTrace.cfg", cwd=sd, timeout=1800)
+        tlc_must(rt, "StableMapTrace")
+        states += rt.distinct
+        for l in rt.lines:
+            if l.get("sm") == "rejected":
+                nrej += 1
+                if nrej == 1:
+                    sq = seqs[k0 + l["t"]]
+                    # another ordering discipline that is still a function of the operations is not a violation of C13
+                    rep.note("DRIFT: stablemap is not the first-insertion-ordered map of StableMap.tla: after %s it shows keys %s values %s, the model %s" % (
+                        json.dumps(sq[:l["i"] + 1]), l["obs"]["keys"], l["obs"]["vals"], json.dumps(l["model"])))
+    return {"sequences": len(seqs), "depth": depth, "not_the_model": nrej, "nondeterministic": ndiff, "model_states": r0.distinct, "trace_states": states}
 
 
 # =========================================================================== C14
